@@ -238,7 +238,15 @@ pub enum TOp {
     Bond { denom: usize, amount: u128 },
     NewEpoch,
     CreateEpoch,
-    OpenFlow { amount: u128 },
+    OpenFlow {
+        amount: u128,
+        /// flow labels are free text and need not be unique
+        #[serde(default)]
+        label: Option<String>,
+        /// None: the designated flow creator; Some(i): user i opens the flow
+        #[serde(default)]
+        by: Option<usize>,
+    },
 }
 
 #[derive(Serialize, Deserialize, Clone, Debug, PartialEq)]
@@ -378,7 +386,21 @@ impl AllAuth {
             }
             Auth::Distributor => vec![self.h.distributor.clone()],
             Auth::Minter => self.lps.get(idx).map(|l| vec![l.1.clone()]).unwrap_or_default(),
-            Auth::FactoryOwnerOrCreator => vec![self.owner_of(&self.h.incentive_factory), CREATOR.to_string()],
+            Auth::FactoryOwnerOrCreator => {
+                // the factory owner, and the creator of the flow the identifier names (when several
+                // flows carry the label and their creators differ, see `ambiguous_close`)
+                let mut out = vec![self.owner_of(&self.h.incentive_factory)];
+                let m = self.matched_flows(idx, inner);
+                if let Some(first) = m.first() {
+                    if m.iter().all(|c| c == first) {
+                        out.push(first.clone());
+                    }
+                }
+                if inner.is_none() {
+                    out.push(CREATOR.to_string());
+                }
+                out
+            }
             Auth::Nobody => vec![],
         }
     }
@@ -431,6 +453,33 @@ impl AllAuth {
             }
         }
         None
+    }
+
+    /// (flow id, label, creator) of every flow of incentive `idx`, in the contract's listing order
+    fn flows_of(&self, idx: usize) -> Vec<(u64, Option<String>, String)> {
+        let Some(inc) = self.h.incentives.get(idx) else { return vec![] };
+        let Ok(flows) = qjson(&self.h.app, &inc.0, &incentive::QueryMsg::Flows { start_epoch: None, end_epoch: None }) else { return vec![] };
+        let arr = flows.as_array().cloned().or_else(|| flows.get("flows").and_then(|f| f.as_array().cloned())).unwrap_or_default();
+        arr.iter()
+            .filter_map(|f| Some((f.get("flow_id")?.as_u64()?, f.get("flow_label").and_then(|l| l.as_str()).map(|l| l.to_string()), f.get("flow_creator")?.as_str()?.to_string())))
+            .collect()
+    }
+    /// creators of the flows a CloseFlow message names (by id: at most one; by label: all that carry it)
+    fn matched_flows(&self, idx: usize, inner: Option<&Value>) -> Vec<String> {
+        let Some(fi) = inner.and_then(|m| jget(m, &["close_flow", "flow_identifier"])) else { return vec![] };
+        let fl = self.flows_of(idx);
+        if let Some(id) = fi.get("id").and_then(|x| x.as_u64()) {
+            return fl.into_iter().filter(|f| f.0 == id).map(|f| f.2).collect();
+        }
+        if let Some(l) = fi.get("label").and_then(|x| x.as_str()) {
+            return fl.into_iter().filter(|f| f.1.as_deref() == Some(l)).map(|f| f.2).collect();
+        }
+        vec![]
+    }
+    /// a user who owns a flow whose label another account's flow carries too
+    fn colliding_label_owner(&self) -> Option<String> {
+        let fl = self.flows_of(0);
+        fl.iter().find(|f| USERS.contains(&f.2.as_str()) && f.1.is_some() && fl.iter().any(|g| g.2 != f.2 && g.1 == f.1)).map(|f| f.2.clone())
     }
 
     fn hooks(&self) -> Vec<String> {
@@ -725,6 +774,16 @@ impl AllAuth {
                 if ids.is_empty() {
                     return None;
                 }
+                // a label that the sender's own flow shares with somebody else's flow
+                let fl = self.flows_of(idx);
+                let shared: Vec<String> = fl.iter().filter(|f| f.2 == attacker).filter_map(|f| f.1.clone()).filter(|l| fl.iter().any(|g| g.2 != attacker && g.1.as_ref() == Some(l))).collect();
+                if !shared.is_empty() && rng.chance(3, 4) {
+                    return plain(jv(&incentive::ExecuteMsg::CloseFlow { flow_identifier: incentive::FlowIdentifier::Label(rng.pick(&shared).clone()) }));
+                }
+                let labels: Vec<String> = fl.iter().filter_map(|f| f.1.clone()).collect();
+                if !labels.is_empty() && rng.chance(1, 4) {
+                    return plain(jv(&incentive::ExecuteMsg::CloseFlow { flow_identifier: incentive::FlowIdentifier::Label(rng.pick(&labels).clone()) }));
+                }
                 plain(jv(&incentive::ExecuteMsg::CloseFlow { flow_identifier: incentive::FlowIdentifier::Id(*rng.pick(&ids)) }))
             }
             "vault_factory.create_vault" => {
@@ -962,9 +1021,14 @@ impl AllAuth {
                 Some((pairaddr.clone(), user.to_string(), h.provide_msgs(&p.addr, &p.assets, [amt, amt]), 0))
             }
             "incentive.close_flow" => {
-                let inner = self.payload(rng, v, idx, CREATOR)?;
+                // the flow's creator closes one of his own flows, named by its (unique) id
+                let own: Vec<u64> = self.flows_of(idx).into_iter().filter(|f| f.2 == CREATOR).map(|f| f.0).collect();
+                if own.is_empty() {
+                    return None;
+                }
+                let msg = jv(&incentive::ExecuteMsg::CloseFlow { flow_identifier: incentive::FlowIdentifier::Id(*rng.pick(&own)) });
                 let inc = h.incentives.get(idx)?.0.clone();
-                Some((CREATOR.to_string(), CREATOR.to_string(), vec![exec_json(&inc, &inner.msg, vec![])], 0))
+                Some((CREATOR.to_string(), CREATOR.to_string(), vec![exec_json(&inc, &msg, vec![])], 0))
             }
             _ => None,
         }
@@ -997,7 +1061,10 @@ impl AllAuth {
                     self.h.proxy2.clone()
                 }
             }
-            Role::User => rng.pick(&USERS).to_string(),
+            Role::User => match self.colliding_label_owner() {
+                Some(u) if d.name == "incentive.close_flow" && rng.chance(3, 4) => u,
+                _ => rng.pick(&USERS).to_string(),
+            },
             Role::WasmAdmin => match d.ct {
                 Ct::Pair | Ct::Trio => self.h.pool_factory.clone(),
                 Ct::Vault => self.h.vault_factory.clone(),
@@ -1065,20 +1132,50 @@ impl AllAuth {
         let to_s = Some(to.to_string());
         let inner = match hct {
             Ct::PoolFactory => Inner { msg: jv(&factory::ExecuteMsg::UpdateConfig { owner: to_s, fee_collector_addr: None, token_code_id: None, pair_code_id: None, trio_code_id: None }), fwd: None, pre: vec![], funds: vec![] },
-            Ct::Pair => Inner {
-                msg: jv(&pair::ExecuteMsg::UpdateConfig { owner: to_s.clone(), fee_collector_addr: None, pool_fees: None, feature_toggle: None }),
-                fwd: Some((h.pool_factory.clone(), jv(&factory::ExecuteMsg::UpdatePairConfig { pair_addr: holder.clone(), owner: to_s, fee_collector_addr: None, pool_fees: None, feature_toggle: None }))),
-                pre: vec![],
-                funds: vec![],
-            },
-            Ct::Trio => Inner {
-                msg: jv(&trio::ExecuteMsg::UpdateConfig { owner: to_s.clone(), fee_collector_addr: None, pool_fees: None, feature_toggle: None, amp_factor: None }),
-                fwd: Some((h.pool_factory.clone(), jv(&factory::ExecuteMsg::UpdateTrioConfig { trio_addr: holder.clone(), owner: to_s, fee_collector_addr: None, pool_fees: None, feature_toggle: None, amp_factor: None }))),
-                pre: vec![],
-                funds: vec![],
-            },
+            // a hand-over may travel in the same message as other (valid) settings: fees, the collector,
+            // switches left on, an amplification ramp towards the value already targeted
+            Ct::Pair => {
+                let combined = rng.chance(1, 2);
+                let fee_collector_addr = if combined { Self::opt(rng, h.collector.clone()) } else { None };
+                let rf = Self::rand_fees(rng);
+                let pool_fees = if combined { Self::opt(rng, pool_fee3(&rf)) } else { None };
+                let feature_toggle = if combined { Self::opt(rng, pair::FeatureToggle { withdrawals_enabled: true, deposits_enabled: true, swaps_enabled: true }) } else { None };
+                Inner {
+                    msg: jv(&pair::ExecuteMsg::UpdateConfig { owner: to_s.clone(), fee_collector_addr: fee_collector_addr.clone(), pool_fees: pool_fees.clone(), feature_toggle: feature_toggle.clone() }),
+                    fwd: Some((h.pool_factory.clone(), jv(&factory::ExecuteMsg::UpdatePairConfig { pair_addr: holder.clone(), owner: to_s, fee_collector_addr, pool_fees, feature_toggle }))),
+                    pre: vec![],
+                    funds: vec![],
+                }
+            }
+            Ct::Trio => {
+                let combined = rng.chance(1, 2);
+                let fee_collector_addr = if combined { Self::opt(rng, h.collector.clone()) } else { None };
+                let rf = Self::rand_fees(rng);
+                let pool_fees = if combined { Self::opt(rng, trio_fee3(&rf)) } else { None };
+                let feature_toggle = if combined { Self::opt(rng, trio::FeatureToggle { withdrawals_enabled: true, deposits_enabled: true, swaps_enabled: true }) } else { None };
+                let amp_factor = if combined && rng.chance(2, 3) {
+                    query::<trio::ConfigResponse, _>(&h.app, &holder, &trio::QueryMsg::Config {}).ok().map(|c| trio::RampAmp { future_a: c.future_amp, future_block: height(&h.app) + 10_000 + rng.range(0, 5_000) })
+                } else {
+                    None
+                };
+                Inner {
+                    msg: jv(&trio::ExecuteMsg::UpdateConfig { owner: to_s.clone(), fee_collector_addr: fee_collector_addr.clone(), pool_fees: pool_fees.clone(), feature_toggle: feature_toggle.clone(), amp_factor: amp_factor.clone() }),
+                    fwd: Some((h.pool_factory.clone(), jv(&factory::ExecuteMsg::UpdateTrioConfig { trio_addr: holder.clone(), owner: to_s, fee_collector_addr, pool_fees, feature_toggle, amp_factor }))),
+                    pre: vec![],
+                    funds: vec![],
+                }
+            }
             Ct::Vault => {
-                let params = vault::UpdateConfigParams { flash_loan_enabled: None, deposit_enabled: None, withdraw_enabled: None, new_owner: to_s, new_vault_fees: None, new_fee_collector_addr: None };
+                let combined = rng.chance(1, 2);
+                let rf = Self::rand_fees(rng);
+                let params = vault::UpdateConfigParams {
+                    flash_loan_enabled: if combined { Self::opt(rng, true) } else { None },
+                    deposit_enabled: if combined { Self::opt(rng, true) } else { None },
+                    withdraw_enabled: if combined { Self::opt(rng, true) } else { None },
+                    new_owner: to_s,
+                    new_vault_fees: if combined { Self::opt(rng, vault_fee3(&rf)) } else { None },
+                    new_fee_collector_addr: if combined { Self::opt(rng, h.collector.clone()) } else { None },
+                };
                 Inner {
                     msg: jv(&vault::ExecuteMsg::UpdateConfig(params.clone())),
                     fwd: Some((h.vault_factory.clone(), jv(&vault_factory::ExecuteMsg::UpdateVaultConfig { vault_addr: holder.clone(), params }))),
@@ -1142,7 +1239,11 @@ impl AllAuth {
             7 | 8 => TOp::Bond { denom: rng.idx(2), amount: rng.range128(1_000, 1_000_000_000) },
             9 => TOp::NewEpoch,
             10 => TOp::CreateEpoch,
-            _ => TOp::OpenFlow { amount: rng.range128(1_000, 1_000_000) },
+            _ => TOp::OpenFlow {
+                amount: rng.range128(1_000, 1_000_000),
+                label: if rng.chance(1, 2) { Some(format!("camp{}", rng.below(2))) } else { None },
+                by: if rng.chance(1, 3) { Some(rng.idx(USERS.len())) } else { None },
+            },
         };
         let adv_ns = match op {
             TOp::NewEpoch | TOp::CreateEpoch => DAY_NS,
@@ -1303,8 +1404,18 @@ impl Scenario for AllAuth {
                 }
             }
             // preparation for cells that need a precondition
-            if d.name == "incentive.close_flow" && self.payload(&mut rng.clone(), v, 0, CREATOR).is_none() {
-                return Some(Step::Traffic { user: 0, op: TOp::OpenFlow { amount: rng.range128(1_000, 1_000_000) }, adv_ns: 0 });
+            if d.name == "incentive.close_flow" && self.flows_of(0).iter().all(|f| f.2 != CREATOR) {
+                return Some(Step::Traffic { user: 0, op: TOp::OpenFlow { amount: rng.range128(1_000, 1_000_000), label: if rng.chance(1, 2) { Some("camp0".into()) } else { None }, by: None }, adv_ns: 0 });
+            }
+            // a stranger may have opened a flow of his own under the label of somebody else's flow
+            if d.name == "incentive.close_flow" && role == Role::User && self.colliding_label_owner().is_none() && rng.chance(2, 3) {
+                let flows = self.flows_of(0);
+                let has_labelled = flows.iter().any(|f| f.2 == CREATOR && f.1.is_some());
+                if !has_labelled {
+                    return Some(Step::Traffic { user: 0, op: TOp::OpenFlow { amount: rng.range128(1_000, 1_000_000), label: Some("camp0".into()), by: None }, adv_ns: 0 });
+                }
+                let label = flows.iter().find(|f| f.2 == CREATOR && f.1.is_some()).and_then(|f| f.1.clone());
+                return Some(Step::Traffic { user: 0, op: TOp::OpenFlow { amount: rng.range128(1_000, 1_000_000), label, by: Some(rng.idx(USERS.len())) }, adv_ns: 0 });
             }
             self.g_cell_done = true;
             match self.gen_probe_cell(rng, v, role, phase_b) {
@@ -1442,7 +1553,7 @@ impl AllAuth {
             ),
             TOp::NewEpoch => ("t_new_epoch", who, vec![wasm_exec(&h.distributor, &fee_distributor::ExecuteMsg::NewEpoch {}, vec![])]),
             TOp::CreateEpoch => ("t_create_epoch", who, vec![wasm_exec(&h.epoch_manager, &em::ExecuteMsg::CreateEpoch {}, vec![])]),
-            TOp::OpenFlow { amount } => ("t_open_flow", CREATOR, if h.incentives.is_empty() { vec![] } else { vec![h.open_flow_msg(*amount)] }),
+            TOp::OpenFlow { amount, label, by } => ("t_open_flow", by.map(|i| USERS[i % USERS.len()]).unwrap_or(CREATOR), if h.incentives.is_empty() { vec![] } else { vec![h.open_flow_msg_l(*amount, label.clone())] }),
         };
         if msgs.is_empty() {
             ctx.trace("traffic:skip");
@@ -1525,12 +1636,38 @@ impl AllAuth {
                 }
             }
         }
+        // CloseFlow: whichever flow the contract picks, it must be one the sender may close
+        let flows_before = if d.name == "incentive.close_flow" { self.flows_of(idx) } else { vec![] };
+        let factory_owner = self.owner_of(&self.h.incentive_factory);
+        let ambiguous_close = d.name == "incentive.close_flow" && !authorised && {
+            let m = self.matched_flows(idx, inner);
+            m.iter().any(|c| c == eff) && m.iter().any(|c| c != eff)
+        };
         let fp0 = fingerprint(&self.h.app);
         let r = tx(&mut self.h.app, top, msgs.to_vec(), Fault::None);
         let ok = r.outcome.is_ok();
         let err = r.outcome.err_text();
         ctx.op(d.name, r.outcome.kind());
         ctx.eval("C16");
+        if d.name == "incentive.close_flow" && ok && eff != factory_owner {
+            let after = self.flows_of(idx);
+            for f in flows_before.iter().filter(|f| !after.iter().any(|g| g.0 == f.0)) {
+                if f.2 != eff {
+                    ctx.fail("C16", "unauthorised_must_fail", "incentive.close_flow_foreign_flow", None, format!("CloseFlow sent by {eff} removed flow {} (label {:?}) created by {}; only its creator or the factory owner {factory_owner} may close it", f.0, f.1, f.2));
+                    return;
+                }
+            }
+        }
+        if ambiguous_close {
+            // several flows carry the label, one of them the sender's: which one is meant is not for
+            // this property to say; the removed flow was checked above, a refusal must change nothing
+            ctx.probe("close_flow_by_shared_label");
+            ctx.trace(&format!("probe:{}:ambiguous:{eff}:{}", d.name, r.outcome.kind()));
+            if !ok && fingerprint(&self.h.app) != fp0 {
+                ctx.fail("C16", "refused_call_changed_state", d.name, None, format!("{} by {eff} failed ({err}) but storage or balances changed", d.name));
+            }
+            return;
+        }
         let refused_for_auth = !ok && refused_with(&err, d.refusal);
         let ph = if phase_b { "B" } else { "A" };
         ctx.trace(&format!("probe:{}:{ph}:{}:{eff}:{}:{}", d.name, role_tag(role), authorised, r.outcome.kind()));
